@@ -19,6 +19,8 @@ use std::sync::Arc;
 pub enum V {
     Col(usize),
     Lit(Option<i64>),
+    /// arithmetic over two operands: '+', '-', '*'
+    Arith(char, Box<V>, Box<V>),
 }
 
 #[derive(Clone, Debug)]
@@ -41,12 +43,21 @@ impl V {
             V::Col(i) => format!("k.{}", COLS[*i]),
             V::Lit(Some(n)) => n.to_string(),
             V::Lit(None) => "NULL".into(),
+            V::Arith(op, a, b) => format!("({} {} {})", a.sql(), op, b.sql()),
         }
     }
     fn eval(&self, row: &[Option<i64>]) -> Option<i64> {
         match self {
             V::Col(i) => row[*i],
             V::Lit(v) => *v,
+            V::Arith(op, a, b) => {
+                let (x, y) = (a.eval(row)?, b.eval(row)?);
+                Some(match op {
+                    '+' => x + y,
+                    '-' => x - y,
+                    _ => x * y,
+                })
+            }
         }
     }
 }
@@ -198,6 +209,15 @@ fn atoms() -> Vec<P> {
     v.push(P::Cmp("=", V::Col(2), V::Lit(None)));
     v.push(P::Const(true));
     v.push(P::Const(false));
+    // reflexive comparisons: NULL where the operand is NULL, never a constant
+    v.push(P::Cmp("=", V::Col(0), V::Col(0)));
+    v.push(P::Cmp("<>", V::Col(1), V::Col(1)));
+    v.push(P::Cmp("<=", V::Col(2), V::Col(2)));
+    v.push(P::Cmp("<", V::Col(0), V::Col(0)));
+    // arithmetic operands: NULL-strict
+    v.push(P::Cmp(">", V::Arith('+', Box::new(V::Col(0)), Box::new(V::Col(1))), V::Lit(Some(3))));
+    v.push(P::Cmp("=", V::Arith('*', Box::new(V::Col(2)), Box::new(V::Lit(Some(0)))), V::Lit(Some(0))));
+    v.push(P::Cmp("=", V::Arith('-', Box::new(V::Col(1)), Box::new(V::Col(1))), V::Lit(Some(0))));
     v
 }
 
@@ -288,7 +308,7 @@ pub fn run(tier: Tier, seed: u64) -> i32 {
         tier,
         seed,
         "exploration",
-        "predicate trees over {=,<>,<,<=,>,>=, IS [NOT] NULL, [NOT] IN (with/without NULL), [NOT] BETWEEN, x = NULL, TRUE/FALSE, AND, OR, NOT}: every tree of the forms atom, NOT atom, atom AND/OR atom and NOT(atom AND/OR atom) over a 33-atom alphabet (exhaustive), plus random depth-3 trees; each evaluated on a table holding every combination of {NULL,1,2,3}^3 for the referenced columns, in WHERE, SELECT-list, CASE, HAVING, inner ON and left ON, over a memory table and two Parquet layouts; oracle = harness Kleene evaluator, itself cross-checked against DataFusion on every tree. distinct = distinct (tree, context, layout) triples",
+        "predicate trees over {=,<>,<,<=,>,>=, IS [NOT] NULL, [NOT] IN (with/without NULL), [NOT] BETWEEN, x = NULL, TRUE/FALSE, AND, OR, NOT}: every tree of the forms atom, NOT atom, atom AND/OR atom and NOT(atom AND/OR atom) over a 40-atom alphabet (exhaustive), plus random depth-3 trees; each evaluated on a table holding every combination of {NULL,1,2,3}^3 for the referenced columns, in WHERE, SELECT-list, CASE, HAVING, inner ON and left ON, over a memory table and two Parquet layouts; oracle = harness Kleene evaluator, itself cross-checked against DataFusion on every tree. distinct = distinct (tree, context, layout) triples",
     );
     let scratch = Scratch::new("c02");
     let (tab, vals) = table();
